@@ -1,12 +1,16 @@
 #!/bin/bash
 # run_seed_on_repo.sh <seed-id> <prop>... : the recorded run: apply the seeded change to /repo itself, run the checks, undo.
+# Location independent (works from a `vp run` snapshot of /verif); the log goes to /verif/seeded/<id>/checks.log.
 ID=$1; shift
-cd /verif
+HERE=$(cd "$(dirname "$0")/.." && pwd)
+cd "$HERE"
 git -C /repo status --porcelain --untracked-files=no | grep -q . && { echo "/repo not clean"; exit 2; }
 git -C /repo apply /verif/seeded/$ID/patch.diff || { echo "patch failed"; exit 2; }
+trap 'git -C /repo checkout -- .' EXIT
 : > /verif/seeded/$ID/checks.log
 for P in "$@"; do
   ./check $P 2>&1 | grep -v "^WARNING" | grep "VIOLATION\|UNDECIDED\|KNOWN\|tier=" | cut -c1-300 | sed "s/^/[$ID] /" >> /verif/seeded/$ID/checks.log
 done
 git -C /repo checkout -- .
+trap - EXIT
 cat /verif/seeded/$ID/checks.log
